@@ -86,15 +86,19 @@ CLAIMED["C07"] = {
   "technique": "Coq lemmas on the matcher model + metamorphic differential testing of the implementation against itself and against the extracted model"}
 CLAIMED["C08"] = {
   "text": "Matcher half: theorems on the matcher model that the prefix index never loses a candidate rule (every rule that can match is returned by the query on the instruction's key) and returns only real rules, "
-          "with the prefix size tied to the source by a table obligation. Static half and end-to-end: on every run all four switch combinations x budgets are compared on the implementation (generated programs incl. "
-          "parameters named like constants, the whole corpus) and with the optimisation-free extracted model; match_instr with and without the index is compared as a set and with the extracted matcher model in both modes.",
-  "design_ref": "6/C08", "note": COMMON_NOTE + RESOLVER_NOTE + " The static-value analysis (inspect.rs) is not modelled; its soundness is decided by the four-way comparison.",
-  "technique": "Coq proof (prefix completeness by induction over pattern parts) + table obligation + four-way metamorphic comparison + differential correspondence"}
+          "with the prefix size tied to the source by a table obligation. Static half: the analysis `is_value_statically_known`, the per-item flags and the `resolved` shortcuts are transcribed (Model/StaticKnown.v, "
+          "Model/ResolverS.v = the resolver with the switch); proved for all programs of the fragment: a statically known expression/constant/data element/instruction match has a value independent of guesses, addresses and "
+          "pass mode; switch off is exactly the plain resolver model incl. pass count; per budget the two settings give the same bits and symbols or differ by the one-pass shift at budget 1 (the literal 'every budget' claim is "
+          "refuted by `#d8 1` at budget 1 = known finding F70); the pre-F72 and pre-F73 analyses are shown unsound by witness. End-to-end on every run: all four switch combinations x budgets on the implementation "
+          "(generated programs incl. label-free, frozen-instruction, reserved-name and scope families, the whole corpus), implementation under both static settings = extracted ResolverS incl. pass count; "
+          "match_instr with and without the index compared as a set and with the extracted matcher model in both modes.",
+  "design_ref": "6/C08", "note": COMMON_NOTE + RESOLVER_NOTE + " Static half hypotheses: no symbol named like an inclusion function (F54 class), canonical numbering, data_static_ok, matches_kinded; the backward direction of the switch theorem is proved for budgets <= 2 only.",
+  "technique": "Coq proof (prefix completeness by induction over pattern parts; static_known_sound by induction over expressions and matches; simulation between the two switch settings) + table obligation + four-way metamorphic comparison + differential correspondence incl. pass counts"}
 CLAIMED["C09"] = {
   "text": "Proved for every program of the model: if it assembles with budget b it assembles to the identical output and symbol values with every larger budget (mode agreement: a resolved strict pass is reproduced by the "
           "guessing pass, via monotonicity of the evaluator in its variable provider; fixed-point persistence), and the reported pass count never exceeds the budget. On every run the implementation is assembled under budgets "
           "1,2,3,4,5,10,11,30: success at b must be reproduced identically at every larger budget; implementation = extracted model at every budget (bits, symbols, pass count).",
-  "design_ref": "6/C09", "note": COMMON_NOTE + RESOLVER_NOTE + " Asm blocks (inner loop reusing the budget) are outside the proved fragment.",
+  "design_ref": "6/C09", "note": COMMON_NOTE + RESOLVER_NOTE + " Asm blocks (inner loop reusing the budget) are outside the proved fragment; they are covered by a budget sweep 1..16, 30 on the implementation (macro programs, unsettled-block family). The command-line budget (`-t N` at every position / output group, real binary) is compared with the library at budget N.",
   "technique": "Coq proof (generic loop theory instantiated; eval_mono; mode agreement per node kind) + budget-sweep metamorphic comparison + differential correspondence"}
 CLAIMED["C03"] = {
   "text": "PARTIAL BY NATURE for crashes. Proved: theorems about the control-flow shape of asm::assemble and driver::assemble_with_command/drive/main, for every instantiation of the abstract phases "
